@@ -29,6 +29,21 @@ def scenarios(rng, tier):
             elif r < 0.86: s.frame(0, emit(M, own, [(1, 0, mac(7), mac(8))], seq=rng.randrange(1, 65536)), fill)
             elif r < 0.92: s.frame(0, discover(rng.choice(st), tos=rng.choice([2, 3, 255]), gen=g), fill)
             else: s.frame(0, generic(rng.randrange(256), rng.choice([0, 1, 2]), M, M, own, own, body=bytes(4)), fill)
+    for k in range(30 if tier == 'quick' else 600):
+        cfg = Cfg(0, mtu=rng.choice([1500, 65536, 65600, 65741, 65742, 70000, 131072 + 100, 576])); own = cfg.own()
+        s.start('pairs_%d' % k); s.lines.append(cfg.line()); M = mac(1)
+        G = rng.choice([0x1234, 0x00FF, 0x0100, 0xA5C3, rng.randrange(1, 65536)]); Gs = ((G & 255) << 8) | (G >> 8)
+        t1, t2 = rng.choice([(0, 0), (1, 1), (0, 1), (1, 0)])
+        s.frame(0, discover(M, tos=t1, gen=G, seq=5))
+        mid = rng.choice(['none', 'reset0', 'reset1', 'hello', 'fault'])
+        if mid == 'reset0': s.frame(0, reset(M, tos=0))
+        elif mid == 'reset1': s.frame(0, reset(M, tos=1))
+        elif mid == 'hello': s.frame(0, hello(mac(9), tos=t2, gen=Gs))
+        elif mid == 'fault':
+            s.frame(0, reset(M, tos=0)); s.op('failalloc', rng.choice([1, 2])); s.frame(0, discover(M, tos=t2, gen=G, seq=6)); s.op('failalloc clear')
+        s.frame(0, discover(M, tos=t2, gen=rng.choice([Gs, Gs, G, 0]), seq=rng.choice([5, 6])))
+        # the same Discover relayed over another path (same transaction id and generation, other Ethernet source), and once more
+        s.frame(0, discover(M, tos=t2, gen=Gs, seq=6, esrc=mac(60))); s.frame(0, discover(M, tos=t2, gen=Gs, seq=6, esrc=mac(61))); s.frame(0, discover(M, tos=t2, gen=Gs, seq=6, esrc=mac(61)))
     return [(s.text(), {})]
 def project(blk, name, meta):
     # what the property fixes: whether a Discover is answered, by how many frames, and the 46 fixed bytes of the Hello
@@ -46,9 +61,12 @@ def cfg_own(ib):
             own = bytes(6) if kv.get('macfail') == '1' else bytes.fromhex(kv.get('mac', OWN0.hex()))
     return own
 def oracle(name, ib, mb, meta):
-    fails = []; tr = MapperTracker(); own = cfg_own(ib)
+    fails = []; tr = MapperTracker(); own = cfg_own(ib); faulty = False
     for i, b in enumerate(ib):
+        if b.op.startswith('failalloc'): faulty = 'clear' not in b.op
         if not b.op.startswith('frame') or b.fault: continue
+        if faulty:
+            ctx, fr = frame_of(b); tr.feed(dec(fr + bytes(max(0, 36 - len(fr))))); continue
         ctx, fr = frame_of(b); d = dec(fr + bytes(max(0, 36 - len(fr))))
         sn = [o for _, _, o in sends_of(b)]
         if d['tos'] in (0, 1) and d['opc'] == 0:
